@@ -62,7 +62,7 @@ func labelHeights(tier string) []int {
 func init() {
 	propConfigs["C01"] = &propConfig{
 		level:   "other",
-		explain: "Deductive part (all inputs, no bound): contracts on the real signing path (xmssFastSignMessage, wotsSign, expandSeed, getSeed, genChain, hashF, prf, coreHash, hMsg, (*XMSS).Sign/SetIndex) and on the verification path (xmssVerifySig, wotsPKFromSig, lTree, validateAuthPath, CalcBaseW): memory safety for every length, signature layout length 2180+32h with the index field equal to the consumed index, index automaton (C02), frames. Bounded part (labelled bounded, never counted as discharged): (1) the BDS traversal invariant 'the stored authentication path of leaf i is Node(j,(i>>j) xor 1) and the root is Node(h,0)' is evaluated on the REAL traversal code for EVERY index of every listed height with node labels in place of digests (only hashH and genLeafWOTS bodies are spliced, mechanically, on each run); (2) with the real hash functions every signature at every index of the small heights verifies. Not yet under functional contract: WOTS chain lemma, checksum digits, L-tree and Merkle-fold specifications (DESIGN.md section 4 C01 links 2-5).",
+		explain: "Deductive part (all inputs, no bound): contracts on the real signing path (xmssFastSignMessage, wotsSign, expandSeed, getSeed, genChain, hashF, prf, coreHash, hMsg, (*XMSS).Sign/SetIndex) and on the verification path (xmssVerifySig, wotsPKFromSig, lTree, validateAuthPath, CalcBaseW): memory safety for every length, signature layout length 2180+32h with the index field equal to the consumed index, index automaton (C02), frames. Bounded part (labelled bounded, never counted as discharged): (1) the BDS traversal invariant 'the stored authentication path of leaf i is Node(j,(i>>j) xor 1) and the root is Node(h,0)' is evaluated on the REAL traversal code for EVERY index of every listed height with node labels in place of digests (only hashH and genLeafWOTS bodies are spliced, mechanically, on each run); (2) with the real hash functions every signature at every index of the small heights verifies. Under functional contract since: genChain = recursive spec chain (with composition lemma chain(chain(X,s,a),s+a,b) = chain(X,s,a+b) and congruence lemmas by induction), CalcBaseW digits + checksum, wotsSign / wOTSPKGen / wotsPKFromSig node-wise, lTree = lnode, validateAuthPath = fold, xmssVerifySig accepts iff the closed-form root equals the pk root (C04). Not claimed: the lemma function composing wotsSign -> wotsPKFromSig == wOTSPKGen (written, tag C01X, instantiations not found reliably) and the BDS traversal as a deductive invariant.",
 		extras: func(e *Engine, tier string, seed int) []ExtraResult {
 			out := e.labelRun(labelHeights(tier))
 			hs := []int{4}
@@ -84,7 +84,7 @@ func init() {
 	}
 	propConfigs["C07"] = &propConfig{
 		level:   "other",
-		explain: "Deductive part (all inputs): (i) the signer cryptoSignSignature is verified for memory safety and arithmetic ranges on every path of the rejection loop, and `after`-assertions pin the specification's acceptance conditions with their exact bounds at the points where the specification has them: ||z||inf < GAMMA1-BETA, ||LowBits(w-cs2)||inf < GAMMA2-BETA, ||ct0||inf < GAMMA2, hint weight = number of non-zero hint coefficients <= OMEGA, and the z part of the signature is the canonical encoding of z; (ii) the arithmetic components are proved equal to their specification functions (C12: Montgomery/Barrett reduction, Power2Round, Decompose/HighBits/LowBits, MakeHint, UseHint, norm test, NTT tables by exhaustive table evaluation) and the encodings are proved lossless and canonical (C13); (iii) call-history independence: cryptoSign is a function of (message, secret key) only (effects back end: no randomness on the deterministic path, no package-level state, the key object is not written), and the lemma function verifLemmaSignAgain shows the same message signed again after other calls gives the identical signature. Bounded part (labelled bounded): byte identity of whole public keys, secret keys and signatures with an independent specification-level implementation of Dilithium round 3.1 level 5 written from the specification with schoolbook polynomial arithmetic modulo q (no NTT, no Montgomery form, no library function) on VERIF_SEED-derived seeds and messages for a fixed wall-time budget; the reference recognises and counts boundary cases (rejection tests met with equality or missed by one, rounding ties, sampler candidates next to the acceptance bound). NOT under functional contract: the samplers' output as a function of the XOF stream (range contracts only), 'NTT-domain product = polynomial product' beyond the table checks of C12, and the composition of the pieces into whole-key / whole-signature equality.",
+		explain: "Deductive part (all inputs): (i) the signer cryptoSignSignature is verified for memory safety and arithmetic ranges on every path of the rejection loop, and `after`-assertions pin the specification's acceptance conditions with their exact bounds at the points where the specification has them: ||z||inf < GAMMA1-BETA, ||LowBits(w-cs2)||inf < GAMMA2-BETA, ||ct0||inf < GAMMA2, hint weight = number of non-zero hint coefficients <= OMEGA, and the z part of the signature is the canonical encoding of z; (ii) the arithmetic components are proved equal to their specification functions (C12: Montgomery/Barrett reduction, Power2Round, Decompose/HighBits/LowBits, MakeHint, UseHint, norm test, NTT tables by exhaustive table evaluation) and the encodings are proved lossless and canonical (C13); (iii) call-history independence: cryptoSign is a function of (message, secret key) only (effects back end: no randomness on the deterministic path, no package-level state, the key object is not written), and the lemma function verifLemmaSignAgain shows the same message signed again after other calls gives the identical signature. Bounded part (labelled bounded): byte identity of whole public keys, secret keys and signatures with an independent specification-level implementation of Dilithium round 3.1 level 5 written from the specification with schoolbook polynomial arithmetic modulo q (no NTT, no Montgomery form, no library function) on VERIF_SEED-derived seeds and messages for a fixed wall-time budget; the reference recognises and counts boundary cases (rejection tests met with equality or missed by one, rounding ties, sampler candidates next to the acceptance bound). Samplers under functional contract: ExpandMask (polyUniformGamma1 = 20-bit little-endian fields of the SHAKE-256 stream), SampleInBall (recursive specification including the refill path), rejUniform / rejEta (candidate semantics: accepted candidates in stream order), polyUniform / polyUniformEta absorbed input and stream-window invariants (the latter found F3). NOT under functional contract: the composed output of polyUniform / polyUniformEta across refills as one closed form, 'NTT-domain product = polynomial product' beyond the table checks of C12, and the composition of the pieces into whole-key / whole-signature equality.",
 		extras: func(e *Engine, tier string, seed int) []ExtraResult {
 			sec, keys := dilBudget(tier)
 			return append(e.dilRefRun(sec, keys, seed), e.stubXofRun()...)
@@ -109,7 +109,7 @@ func init() {
 	}
 	propConfigs["C06"] = &propConfig{
 		level: "other",
-		explain: "Deductive part (all inputs): every hash construction of the scheme is proved equal to its specification over uninterpreted hash primitives: coreHash = H_id(toByte(type,32) || key || in) for ids 0..2 and a no-op otherwise, prf (type 3), hashF (type 0, key = PRF(pubSeed, addr|km=0), mask km=1), hashH (type 1, masks km=1,2), hMsg (type 2, 96-byte key), big-endian address serialisation and toByte, getSeed, expandSeed, the SHAKE-256 seed expansion and sk/pk layout of XMSSFastGenKeyPair, and the signing-side wiring of xmssFastSignMessage (R = PRF(SK_PRF, toByte(idx,32)), hash key R || root || toByte(idx,32), index field, randomiser field, authentication path copied from the state BEFORE the traversal step); Verify == VerifyWithCustomWOTSParamW(.., 16). Bounded part (labelled): an independent full-Merkle-tree reference implementation written from RFC 8391 + QRL conventions reproduces the library's public key and the signature bytes at every index of the listed heights for all three hash functions; tree root / authentication-path contents additionally inherit the label run of C01. Not under functional contract: the recursive structure of WOTS chains, L-tree and Merkle tree (genChain, lTree, treeHashSetup are verified for safety and frames only).",
+		explain: "Deductive part (all inputs): every hash construction of the scheme is proved equal to its specification over uninterpreted hash primitives: coreHash = H_id(toByte(type,32) || key || in) for ids 0..2 and a no-op otherwise, prf (type 3), hashF (type 0, key = PRF(pubSeed, addr|km=0), mask km=1), hashH (type 1, masks km=1,2), hMsg (type 2, 96-byte key), big-endian address serialisation and toByte, getSeed, expandSeed, the SHAKE-256 seed expansion and sk/pk layout of XMSSFastGenKeyPair, and the signing-side wiring of xmssFastSignMessage (R = PRF(SK_PRF, toByte(idx,32)), hash key R || root || toByte(idx,32), index field, randomiser field, authentication path copied from the state BEFORE the traversal step); Verify == VerifyWithCustomWOTSParamW(.., 16). Bounded part (labelled): an independent full-Merkle-tree reference implementation written from RFC 8391 + QRL conventions reproduces the library's public key and the signature bytes at every index of the listed heights for all three hash functions; tree root / authentication-path contents additionally inherit the label run of C01. WOTS chains (genChain = chain), base-w digits and checksum, wotsSign / wOTSPKGen / wotsPKFromSig, lTree (= lnode) and the authentication-path fold (= fold) are under recursive specifications on both the signing and the verification side. Not under a recursive specification: treeHashSetup / the BDS node computation (safety, frames, purity only) - that part of the public key root and of the authentication path rests on the bounded runs.",
 		extras: func(e *Engine, tier string, seed int) []ExtraResult {
 			hs := []int{4}
 			if tier == "thorough" {
